@@ -272,7 +272,24 @@ func runC10(p *core.Prog, r *core.Report) {
 	r5 := r.Rule("C10.R5", "readHeader: the end of the window read for the entry that was found (min(offset+length, offset+window)) is provably within the buffer wherever the buffer is sliced up to it: an entry can be found at any offset up to the refill threshold, so the window is re-based when it would not fit", 2)
 	windowInsideBuffer(p, r, r5)
 	r.Explain += " (R5) in readHeader every slicing of the caller's buffer whose upper bound is the found entry's window end is preceded, on every path, by facts implying bound <= cap(buffer) (the not-fitting case moves the bytes read so far to the buffer start); decided by the difference-bound engine with a case split over the incoming edges. A bound beyond the buffer is a run-time panic in ReadObject / Head / GetStream for a stored object."
-	// R4 what a reader decodes are the stored bytes (shared with C11.R7)
+	// R6 moving the window keeps the count of valid bytes
+	r6 := r.Rule("C10.R6", "readHeader: when the bytes read so far are moved to the start of the caller's buffer (copy within the buffer, its result becoming the count of valid bytes), the source ends at the count of valid bytes, not at the end of the buffer: otherwise stale bytes of the previous window are taken for object data by Head / GetStream / ReadObject while Get still returns the stored bytes", 2)
+	if fn := p.Func("(*pkg/local_object_storage/blobstor/fstree.FSTree).readHeader"); fn != nil {
+		for _, s := range core.CallSites([]*ssa.Function{fn}, func(s core.Site) bool { return s.Name == "builtin.copy" }) {
+			a := s.Call.Common().Args
+			sl, ok := a[1].(*ssa.Slice)
+			if !ok || core.ParamIndex(fn, a[0]) < 0 || core.ParamIndex(fn, sl.X) != core.ParamIndex(fn, a[0]) {
+				continue
+			}
+			bounded := sl.High != nil
+			if c, isC := sl.High.(*ssa.Call); isC {
+				if nm := core.CalleeName(c); nm == "builtin.len" || nm == "builtin.cap" {
+					bounded = false
+				}
+			}
+			r6.Check(bounded, core.FuncName(fn)+"#window-moved!valid-bytes-only", p.InstrPos(s.Call), "the moved part ends at an explicit bound (the valid-byte count)", "the window is moved with a source that runs to the end of the buffer: the returned count then includes bytes that were never read for this position")
+		}
+	}
 	r4 := r.Rule("C10.R4", "the compressed head handed to the streaming decoder is a private copy, never a view of the caller's buffer (which the same read refills with decoded bytes while the decoder is still reading ahead): otherwise ReadObject / ReadHeader return other bytes than were stored although Get and GetBytes look healthy", 1)
 	decoderInputPrivate(p, r, r4)
 	r.Explain += " (R4, shared with C11.R7) the bytes a streaming zstd decoder starts from are a copy of the file's head, not a slice of the caller-owned buffer that is overwritten with the decoded head during the same call."
